@@ -172,6 +172,11 @@ theorem step_preserves_inv (s : State) (op : Op) (hg : isGenesis op = false) (hi
     split
     · rename_i s' h; exact (bankSend_inv hi h).1
     · exact hi
+  | delegate f coin =>
+    simp only
+    split
+    · rename_i s' h; exact (stakeDelegate_inv hi h).1
+    · exact hi
 
 theorem run_preserves_inv (ops : List Op) (s : State) (hg : ∀ op ∈ ops, isGenesis op = false) (hi : Inv s) :
     Inv (run s ops) := by
@@ -250,6 +255,7 @@ def refusal (s : State) (op : Op) : Option Err :=
   | .cancelPay src exts => errOf (cancelPayments s src exts)
   | .retarget src ext nt => errOf (updatePaymentTarget s src ext nt)
   | .send f t coins => errOf (bankSend s f t coins)
+  | .delegate f coin => errOf (stakeDelegate s f coin)
 
 /-- **A refused message changes nothing** (clean form): whenever the handler of `op` returns an
 error in state `s`, the whole state — records, holds, balances, markets — is unchanged, and the
@@ -656,6 +662,56 @@ theorem no_hold_change {s : State} (hi : Inv s) (a : Addr) (d : Denom) :
     (∀ f t coins s', bankSend s f t coins = .ok s' → hold s' a d = hold s a d) ∧
     (∀ mk, hold (setMarket s mk) a d = hold s a d) :=
   ⟨fun _ _ _ _ h => (updatePaymentTarget_inv hi h).2 a d, fun _ _ _ _ h => (bankSend_inv hi h).2 a d, fun _ => rfl⟩
+
+/-- **Funds on hold cannot be delegated** ("... and never exceeds the account's balance", for the
+one bank outflow that is not a send: staking `MsgDelegate` → bank `DelegateCoins`). An accepted
+delegation took no more than the balance minus the hold, touched no hold, and leaves every hold
+covered by its balance; a delegation of more than the un-held balance is refused. -/
+theorem delegate_respects_hold {s : State} (hi : Inv s) (f : Addr) (coin : Coin) :
+    (∀ s', stakeDelegate s f coin = .ok s' →
+      coin.2 ≤ bal s f coin.1 - hold s f coin.1 ∧ (∀ a d, hold s' a d = hold s a d) ∧
+      (∀ a d, hold s' a d ≤ bal s' a d)) ∧
+    (bal s f coin.1 - hold s f coin.1 < coin.2 → ∃ e, stakeDelegate s f coin = .error e) := by
+  constructor
+  · intro s' h
+    have hinv := stakeDelegate_inv hi h
+    refine ⟨?_, hinv.2, hinv.1.covered⟩
+    unfold stakeDelegate at h
+    split at h
+    · simp at h
+    · split at h
+      · simp at h
+      · split at h
+        · simp at h
+        · rename_i s1 hs1
+          unfold delegateCoins at hs1
+          split at hs1
+          · simp at hs1
+          · split at hs1
+            · rename_i hc
+              simp only [canSpend, spendable, List.all_cons, List.all_nil, Bool.and_true] at hc
+              exact of_decide_eq_true hc
+            · simp at hs1
+  · intro hlt
+    unfold stakeDelegate
+    split
+    · exact ⟨_, rfl⟩
+    · split
+      · exact ⟨_, rfl⟩
+      · have hn : delegateCoins s f bondedPool [coin] = none := by
+          unfold delegateCoins
+          split
+          · rfl
+          · have hc : canSpend s f [coin] = false := by
+              simp only [canSpend, spendable, List.all_cons, List.all_nil, Bool.and_true]
+              exact decide_eq_false (by omega)
+            simp [hc]
+        rw [hn]
+        exact ⟨_, rfl⟩
+
+/-- 10fig, 8 of them on hold: delegating 3 is refused (`funds`), delegating 2 is accepted. -/
+example : errOf (stakeDelegate { bank := [⟨"A", "fig", 10⟩], hold := [⟨"A", "fig", 8⟩] } "A" ("fig", 3)) = some .funds ∧
+    errOf (stakeDelegate { bank := [⟨"A", "fig", 10⟩], hold := [⟨"A", "fig", 8⟩] } "A" ("fig", 2)) = none := by decide
 
 /-! ### "no less": a release never finds the hold short -/
 
